@@ -137,6 +137,8 @@ struct Node {
     size: u64,
     hash: u64,
     mtime: i128,
+    /// number of names of the file: a file that gains a second name shares its storage with another path from then on
+    nlink: u64,
 }
 
 type Snap = BTreeMap<String, Node>;
@@ -158,7 +160,7 @@ fn walk(base: &Path, rel: &str, out: &mut Snap) {
         let r = if rel.is_empty() { name } else { format!("{rel}/{name}") };
         let Ok(md) = std::fs::symlink_metadata(e.path()) else { continue };
         if md.is_dir() {
-            out.insert(r.clone(), Node { dir: true, size: md.len(), hash: 0, mtime: 0 });
+            out.insert(r.clone(), Node { dir: true, size: md.len(), hash: 0, mtime: 0, nlink: 0 });
             walk(base, &r, out);
         } else {
             let data = std::fs::read(e.path()).unwrap_or_default();
@@ -167,7 +169,7 @@ fn walk(base: &Path, rel: &str, out: &mut Snap) {
                 .ok()
                 .and_then(|t| t.duration_since(std::time::UNIX_EPOCH).ok())
                 .map_or(0, |d| d.as_nanos() as i128);
-            out.insert(r, Node { dir: false, size: md.len(), hash: fnv(&data), mtime });
+            out.insert(r, Node { dir: false, size: md.len(), hash: fnv(&data), mtime, nlink: std::os::unix::fs::MetadataExt::nlink(&md) });
         }
     }
 }
